@@ -24,7 +24,7 @@ STD = {'FIELD': '|', 'COMPONENT': '^', 'SUBCOMPONENT': '&', 'REPETITION': '~', '
 NMAX = {'DT': 9, 'TM': 17, 'DTM': 26, 'SI': 7, 'NM': 18}
 CROSS_NMAX = 26      # obligation queries up to this length are decided a second time (cvc5 / z3 4.8.12) in the thorough tier
 VERSION = {'DT': '2.5', 'TM': '2.5', 'DTM': '2.5', 'SI': '2.5', 'NM': '2.5'}
-NMAX_OTHER = 8 if THOROUGH else 6      # E2 length bound for the versions other than VERSION[D] (datatype_factory dispatches per version)
+NMAX_OTHER = 99 if THOROUGH else 6     # E2 length bound for the versions other than VERSION[D] (datatype_factory dispatches per version); thorough: the full lengths
 
 
 def all_versions():
@@ -623,6 +623,6 @@ SPEC = {
                   'R1, T1, M1' % NGRID},
         {'name': 'E2.values', 'engine': 'E2', 'worker': '_e2_values', 'timeout': 7200,
          'bound': 'A1, A2, R1, T1 for %s, every string of each length up to %r over the alphabet in version %s, and up to length %d in every '
-                  'other version that defines the datatype' % (TASK_TYPES, {d: NMAX[d] for d in TASK_TYPES}, VERSION['DT'], NMAX_OTHER)},
+                  'other version that defines the datatype' % (TASK_TYPES, {d: NMAX[d] for d in TASK_TYPES}, VERSION['DT'], min(NMAX_OTHER, max(NMAX.values())))},
     ],
 }
